@@ -258,15 +258,6 @@ theorem lookup_of_none (cid : Nat) (h : downlinkCmdLen cid = none) : TD.lookup c
   simp only [List.mem_cons, List.not_mem_nil, or_false] at hm
   rcases hm with rfl | rfl | rfl | rfl | rfl | rfl | rfl | rfl | rfl | rfl <;> simp [downlinkCmdLen] at h
 
-theorem next_errored (d : List Int) : Gen.MacCmdFn.MacCommands.next ⟨d, true⟩ = some (none, ⟨d, true⟩) := by
-  simp [Gen.MacCmdFn.MacCommands.next]
-
-theorem next_empty : Gen.MacCmdFn.MacCommands.next ⟨[], false⟩ = some (none, ⟨[], false⟩) := by
-  simp [Gen.MacCmdFn.MacCommands.next]
-
-theorem run_empty (f : Nat) : genRunFuel (f + 1) ⟨[], false⟩ = some ([], ⟨[], false⟩, false) := by
-  simp [genRunFuel, next_empty]
-
 /-- `next` on a stream whose first command is whole -/
 theorem next_ok (cid n : Nat) (rest : List Nat) (h : downlinkCmdLen cid = some n) (hl : ¬ rest.length < n) :
     ∃ c v t, Gen.MacCmdFn.MacCommands.next ⟨ints (cid :: rest), false⟩ = some (some (.Ok c), ⟨ints (rest.drop n), false⟩) ∧
@@ -318,12 +309,6 @@ theorem next_err (cid : Nat) (rest : List Nat)
       have he : (ints (cid :: rest)).isEmpty = false := by simp [ints]
       unfold Gen.MacCmdFn.MacCommands.next
       simp [he, hg]
-
-theorem run_step (f : Nat) (s s' : Gen.MacCmdFn.MacCommands) (it : Gen.MacCmdFn.NextItem)
-    (r : List Gen.MacCmdFn.NextItem × Gen.MacCmdFn.MacCommands × Bool)
-    (hn : Gen.MacCmdFn.MacCommands.next s = some (some it, s')) (hr : genRunFuel f s' = some r) :
-    genRunFuel (f + 1) s = some (it :: r.1, r.2.1, r.2.2) := by
-  simp only [genRunFuel, hn, hr]
 
 theorem drain : ∀ (k : Nat) (data : List Nat), data.length ≤ k → (∀ b ∈ data, b < 256) →
     ∀ fuel fuel', data.length + 2 ≤ fuel → data.length + 1 ≤ fuel' →
